@@ -34,6 +34,7 @@ import ast
 import copy
 import json
 import os
+import random
 import re
 
 from . import common as C
@@ -522,6 +523,11 @@ def run(tier: str, seed: int) -> int:
                          f"about the model) on a {d['family']} input", d)
         else:
             chk.disagree("story-coqc", "a case shard failed to evaluate", {"log": log[-3000:]})
+    # ---- the compiled dict as JSON data / JSON text: the real dict against Story/StoryJson.v (exact writer, strict reader,
+    # distinct keys, engine view = the story2coq term, file text read back), evaluated inside Coq ----
+    from . import storyjson_tie
+    chk.notes["story_json"] = storyjson_tie.phase(chk, random.Random(rng.randrange(10 ** 9)), 15 if tier == "quick" else 150,
+                                                  repo_files=True)
     chk.cov["programs"] = n_valid
     chk.cov["disagreements_checked"] = len(pterms)
     chk.cov["disagreements_found"] = n_dis
